@@ -76,7 +76,7 @@ Theorem c01_registry_independent :
   (forall r name now now', let (r1, w1) := get r name now in get r1 name now' = (r1, w1)) /\
   (forall coin_lt r now a b e, a <> b ->
      alookup Nat.eqb b (fst (fst (rstep coin_lt (r, now) (a, e)))) = alookup Nat.eqb b r) /\
-  (forall coin_lt r now a e,
+  (forall coin_lt r now a e, (forall dt, e <> Advance dt) ->
      alookup Nat.eqb a (fst (fst (rstep coin_lt (r, now) (a, e)))) =
      Some (fst (fst (bstep coin_lt (snd (get r a now), now) e)))).
 Proof. exact (conj get_same (conj registry_independent registry_same)). Qed.
